@@ -443,7 +443,8 @@ def run(ctx):
                 ctx.tally("raises (window range empty, as modelled)")
                 ctx.count(["raise", f, P["nb"], P["fmax"]], False)
                 continue
-            ctx.disagree("implementation raised %s, model returned %s" % (im, mo[:3]), replay_of(m))
+            ctx.disagree("implementation raised %s, model returned %s" % (im, mo[:3]), replay_of(m),
+                         is_property_failure=(mo != ["X"]))
             continue
         if zero_d_mean:
             ctx.notes.append("0-d mean-method call did not raise any more")
@@ -562,7 +563,8 @@ def run(ctx):
             if method == "mean" and imax <= imin and mo == ["X"]:
                 ctx.tally("2d: raises (window range empty, as modelled)")
                 continue
-            ctx.disagree("2D: implementation raised %s, model returned %s" % (im, mo[:3]), replay_of(m))
+            ctx.disagree("2D: implementation raised %s, model returned %s" % (im, mo[:3]), replay_of(m),
+                         is_property_failure=(mo != ["X"]))
             continue
         nf = len(f)
         for j, s in enumerate(m["specs"]):
